@@ -1107,10 +1107,10 @@ def plan(ctx: Ctx) -> List[Dict[str, Any]]:
         dict(name="nesting<=6", actions=6, depth=3, fields=0, kinds=[], blocks=["para", "list", "lit", "doctest"], free=False,
              sample=20000),
         dict(name="history-fault<=4", actions=4, depth=2, fields=2, kinds=["param", "return", "note", "ivar", "raises"],
-             blocks=["para", "list", "lit", "doctest", "poison"], free=False, sample=20000, hows=["assigned", "inherited", "direct"],
+             blocks=["para", "list", "lit", "doctest", "poison"], free=False, sample=12000, hows=["assigned", "inherited", "direct"],
              need="history-or-fault"),
         dict(name="version-directive<=4", actions=4, depth=2, fields=1, kinds=["param", "note"], blocks=["para", "list", "lit", "version"],
-             free=False, sample=15000, formats=["restructuredtext", "google", "numpy", "plaintext"], need="version"),
+             free=False, sample=8000, formats=["restructuredtext", "google", "numpy", "plaintext"], need="version"),
         dict(name="numpy-see-also<=4", actions=5, depth=1, fields=4, kinds=["seealso", "param"], blocks=["para"],
              free=False, sample=None, forms=["plain", "nsee"], formats=["numpy"], need_form="nsee"),
         dict(name="rst-consolidated<=4", actions=4, depth=2, fields=2, kinds=CONS_KINDS + ["note"], blocks=["para", "list", "lit", "doctest", "code"],
